@@ -21,6 +21,8 @@ LEVEL = "model_checking"
 TERM = {"lf": b"\n", "crlf": b"\r\n", "cr": b"\r"}
 SMALL = [
     ("blockcmt", "C", "/* a\n * b\n */\nint x;\n\n\nint y;\n"),
+    ("blockcmt-stars", "C", "/*\n** text\n** more\n*/\nint x;\n"),
+    ("blockcmt-hash", "C", "int y; /* a\n## x\n++ y\n*/\nint z;\n"),
     ("macro-cont", "C", "#define A \\\n b \\\n 1\nint x;\nint y;\n"),
     ("cpp-cmt-cont", "C", "int a; // c \\\n more\nint b;\n"),
     ("cpp-cmt-cont-nofinal", "C", "int a; // c \\\n more\nint b;"),
